@@ -40,6 +40,9 @@ type c07Case struct {
 	ExclBody      bool       `json:"exclBody"`
 	ExclQuery     bool       `json:"exclQuery"`
 	AuthReadsBody bool       `json:"authReadsBody"`
+	// Unsized: the body comes from a reader net/http cannot size (ContentLength 0 = unknown, as for a
+	// request built around a pipe or a MultiReader)
+	Unsized bool `json:"unsized"`
 }
 
 func c07Sec(reqs [][]string) []any {
@@ -61,7 +64,15 @@ func c07ParamJSON(ps []c07Param) []any {
 		if p.Kind == "strx" {
 			sch = map[string]any{"type": "string", "pattern": "^x"}
 		}
-		out = append(out, map[string]any{"name": p.Name, "in": p.In, "schema": sch})
+		m := map[string]any{"name": p.Name, "in": p.In, "schema": sch}
+		switch p.Kind {
+		case "reqint":
+			m["required"] = true
+		case "reqintd":
+			m["required"] = true
+			sch["default"] = 1
+		}
+		out = append(out, m)
 	}
 	return out
 }
@@ -147,6 +158,11 @@ func c07Run(c *Case) []any {
 		body = strings.NewReader(`{}`)
 	}
 	req := httptest.NewRequest("POST", target, body)
+	if tc.Unsized && body != nil {
+		req.Body = io.NopCloser(io.MultiReader(body))
+		req.ContentLength = 0
+		req.GetBody = nil
+	}
 	if body != nil {
 		req.Header.Set("Content-Type", "application/json")
 	}
